@@ -168,7 +168,9 @@ def run_arith(case, ctx):
     ln, rn, n = case["ln"], case["rn"], case["n"]
     op = getattr(operator, case["op"])
     L = R.build_table([(nm, [2 + i for i in range(n)]) for nm in ln])
-    Rt = R.build_table([(nm, [1 + i for i in range(n)]) for nm in rn])
+    # the right table's names are built at run time: equal to the left ones where they are equal, but other str objects
+    rn_objs = [None if nm is None else "".join(list(nm)) if len(nm) < 2 else (nm + "#")[:-1] for nm in rn]
+    Rt = R.build_table([(nm, [1 + i for i in range(n)]) for nm in rn_objs])
     ctx.ev()
     r = op(L, 2)
     if list(r.column_names()) != list(ln):
